@@ -216,6 +216,27 @@ def run_mn(case, drv):
 
 # ----------------------------------------------------------------------------- triangulation
 def gen_tri(rng, tier):
+    if rng.random() < .15:
+        # a DISCONNECTED network: a chordless cycle in one component, trees in the others (fewer edges than nodes overall)
+        k = rng.randint(4, 5)
+        extra = rng.randint(1, 2)
+        n = k + 2 * extra
+        names = gen.node_names(rng, n, rng.choice(["str", "word", "int"]))
+        card = [rng.choice([2, 2, 3]) for _ in range(n)]
+        labels = [gen.state_labels(rng, c, rng.choice(["int", "str"])) for c in card]
+        perm = list(range(n))
+        rng.shuffle(perm)
+        pairs = [(perm[i], perm[(i + 1) % k]) for i in range(k)] + [(perm[k + 2 * j], perm[k + 2 * j + 1]) for j in range(extra)]
+        fs = [{"scope": list(p_) if rng.random() < .5 else [p_[1], p_[0]],
+               "vals": [rs(x) for x in gen.rand_vals(rng, card[p_[0]] * card[p_[1]], "generic")]} for p_ in pairs]
+        rng.shuffle(fs)
+        case = {"nodes": names, "card": card, "labels": labels, "factors": fs, "dup": False}
+        case["heuristic"] = rng.choice(["H1", "H2", "H3", "H4", "H5", "H6", "order"])
+        order = list(range(n))
+        rng.shuffle(order)
+        case["order"] = order
+        case["inplace"] = rng.random() < .3
+        return case
     n = rng.randint(3, 6)
     case = mnet.gen_mn_case(rng, nmin=n, nmax=n, connected=True, dup=False, special=rng.choice([None, None, None, "one"]))
     # add a few extra pairwise factors to create chordless cycles
